@@ -12,9 +12,9 @@ open Peg Tx
 mutual
 /-- the fragment of `Sim.Repr` as a decidable predicate -/
 def frag : Expr → Bool
-  | .str _ _ sup => !sup
-  | .seq xs sup | .alt xs sup => !sup && fragAll xs
-  | .rep _ x sep eol sup => !sup && sep.isNone && !eol && frag x
+  | .str .. => true
+  | .seq xs _ | .alt xs _ => fragAll xs
+  | .rep _ x sep eol _ => sep.isNone && !eol && frag x
   | _ => false
 def fragAll : List Expr → Bool
   | [] => true
@@ -55,39 +55,27 @@ theorem idOf_frag (rootOf : String → Nat) (e : Expr) (n : Nat) (h : frag e = t
 mutual
 theorem emit_repr (rootOf : String → Nat) : ∀ (e : Expr), frag e = true → ∀ (pre post : List CNode),
     Repr (table (pre ++ emit rootOf e pre.length ++ post)) e pre.length
-  | .str t v sup, h, pre, post => by
-      cases sup with
-      | true => simp [frag] at h
-      | false =>
-        refine ⟨_, by simpa [emit] using table_at pre post _, rfl, rfl, rfl, rfl⟩
+  | .str t v sup, _, pre, post => by
+      refine ⟨_, by simpa [emit] using table_at pre post _, rfl, rfl, rfl, rfl⟩
   | .seq xs sup, h, pre, post => by
-      cases sup with
-      | true => simp [frag] at h
-      | false =>
-        simp only [frag, Bool.not_false, Bool.true_and] at h
-        have hl := emitList_repr rootOf xs h
-          (pre ++ [{ node := { kind := .seq, kids := kidIds rootOf xs (pre.length+1), suppress := false } }]) post
-        simp only [List.length_append, List.length_cons, List.length_nil, Nat.zero_add, List.append_assoc,
-          List.singleton_append] at hl
-        refine ⟨_, by simpa [emit] using table_at pre (emitList rootOf xs (pre.length+1) ++ post) _,
-          rfl, rfl, rfl, rfl, rfl, ?_⟩
-        simpa [emit] using hl
+      simp only [frag] at h
+      have hl := emitList_repr rootOf xs h
+        (pre ++ [{ node := { kind := .seq, kids := kidIds rootOf xs (pre.length+1), suppress := sup } }]) post
+      simp only [List.length_append, List.length_cons, List.length_nil, Nat.zero_add, List.append_assoc,
+        List.singleton_append] at hl
+      refine ⟨_, by simpa [emit] using table_at pre (emitList rootOf xs (pre.length+1) ++ post) _,
+        rfl, rfl, rfl, rfl, rfl, ?_⟩
+      simpa [emit] using hl
   | .alt xs sup, h, pre, post => by
-      cases sup with
-      | true => simp [frag] at h
-      | false =>
-        simp only [frag, Bool.not_false, Bool.true_and] at h
-        have hl := emitList_repr rootOf xs h
-          (pre ++ [{ node := { kind := .choice, kids := kidIds rootOf xs (pre.length+1), suppress := false } }]) post
-        simp only [List.length_append, List.length_cons, List.length_nil, Nat.zero_add, List.append_assoc,
-          List.singleton_append] at hl
-        refine ⟨_, by simpa [emit] using table_at pre (emitList rootOf xs (pre.length+1) ++ post) _,
-          rfl, rfl, rfl, rfl, rfl, ?_⟩
-        simpa [emit] using hl
+      simp only [frag] at h
+      have hl := emitList_repr rootOf xs h
+        (pre ++ [{ node := { kind := .choice, kids := kidIds rootOf xs (pre.length+1), suppress := sup } }]) post
+      simp only [List.length_append, List.length_cons, List.length_nil, Nat.zero_add, List.append_assoc,
+        List.singleton_append] at hl
+      refine ⟨_, by simpa [emit] using table_at pre (emitList rootOf xs (pre.length+1) ++ post) _,
+        rfl, rfl, rfl, rfl, rfl, ?_⟩
+      simpa [emit] using hl
   | .rep op x sep eol sup, h, pre, post => by
-      cases sup with
-      | true => simp [frag] at h
-      | false =>
       cases sep with
       | some _ => simp [frag] at h
       | none =>
@@ -96,7 +84,7 @@ theorem emit_repr (rootOf : String → Nat) : ∀ (e : Expr), frag e = true → 
       | false =>
         simp only [frag, Bool.not_false, Bool.true_and, Option.isNone_none] at h
         have hx := emit_repr rootOf x h
-          (pre ++ [{ node := { kind := repKind op, kids := [idOf rootOf x (pre.length+1)], suppress := false,
+          (pre ++ [{ node := { kind := repKind op, kids := [idOf rootOf x (pre.length+1)], suppress := sup,
                                eolterm := false, sep := none } }]) post
         simp only [List.length_append, List.length_cons, List.length_nil, Nat.zero_add, List.append_assoc,
           List.singleton_append] at hx
